@@ -80,6 +80,56 @@ function in place of `exp` (`e` is a parameter of the model; `C20_shift_invarian
 every `e' x = e x * g`, `g ≠ 0` — here `g = exp (-c)` — gives the same weights and output). -/
 def expShift (c : Float) (x : Float) : Float := Float.exp (x - c)
 
+/-! ### Tensor level: the raw arguments of the call go through the model's `tensorApply`
+(`check_input`, broadcasting as index arithmetic, the sequence axis named by `dim`). -/
+
+/-- Row-major position of a multi-index (glue: how the flat JSON data is addressed). -/
+def flatIndex (shape idx : List Nat) : Nat :=
+  (shape.zip idx).foldl (fun acc p => acc * p.1 + p.2) 0
+
+def mkTensor {α} (shape : List Nat) (data : Array α) (dflt : α) : Tensor α :=
+  ⟨shape, fun idx => data.getD (flatIndex shape idx) dflt⟩
+
+/-- All multi-indices of a shape in row-major order. -/
+def allIdx : List Nat → List (List Nat)
+  | [] => [[]]
+  | n :: s => (List.range n).flatMap (fun i => (allIdx s).map (i :: ·))
+
+def parseTensor {α} (f : Json → Except String α) (dflt : α) (j : Json) : Except String (Tensor α) := do
+  let shape ← getNatList j "shape"
+  let data ← getList f j "data"
+  pure (mkTensor shape data.toArray dflt)
+
+/-- {dim, Q, K, vsz, q, k, v, mask} → the result tensor of `tensorApply f …` (or the error class). -/
+def runTensor (f : Nat → List Float → List (List Float) → List (List Float) → Option (List Bool) → List Float)
+    (outSize : Nat → Nat) (tj : Json) : Except String Json := do
+  let q ← field tj "q" >>= parseTensor jsonToFloat 0
+  let k ← field tj "k" >>= parseTensor jsonToFloat 0
+  let v ← field tj "v" >>= parseTensor jsonToFloat 0
+  let mask ← match fieldOpt tj "mask" with
+    | none => pure none
+    | some mj => some <$> parseTensor jsonToBool false mj
+  match tensorApply f outSize (← getNat tj "Q") (← getNat tj "K") (← getOptNat tj "vsz")
+      (← getInt tj "dim") q k v mask with
+  | .error .value => pure (objJ [("error", strJ "value")])
+  | .error .runtime => pure (objJ [("error", strJ "runtime")])
+  | .ok t => pure (objJ [("shape", listJ natJ t.shape),
+      ("data", listJ floatJ ((allIdx t.shape).map t.val))])
+
+/-- The per-element function of the single-head flavours as the driver runs it: `attend` with
+`exp (x - c)`, `c` the largest kept score of the element. -/
+def attendShifted (fl : Flavour Float) (D : Nat) (q : List Float) (ks vs : List (List Float))
+    (mask : Option (List Bool)) : List Float :=
+  let c := keptMax (ks.map (score Float.tanh fl q)) (effMask mask ks.length)
+  attend Float.tanh (expShift c) fl D q ks vs mask
+
+/-- … and of multi-headed attention: one shift per head. -/
+def mhaShifted (m : MHA Float) (q : List Float) (ks vs : List (List Float))
+    (mask : Option (List Bool)) : List Float :=
+  let cs := (List.range m.numHeads).map (fun h =>
+    keptMax (mhaHeadScores Float.tanh m q ks h) (effMask mask ks.length))
+  mhaForwardH Float.tanh (fun h => expShift (cs.getD h 0)) m q ks vs mask
+
 /-- case: {flavour, D, elems: [{q, ks, vs, mask}]}. -/
 def c20Single : Handler := fun c => do
   let flJ ← field c "flavour"
@@ -101,7 +151,10 @@ def c20Single : Handler := fun c => do
     pure (objJ [("scores_exact", scoresExact), ("shift", floatJ c),
       ("scores", listJ floatJ scoresF),
       ("weights", listJ floatJ ws), ("out", listJ floatJ out), ("spec", listJ floatJ spec)]))
-  pure (objJ [("elems", Json.arr outs.toArray)])
+  let tens ← match fieldOpt c "tensor" with
+    | none => pure Json.null
+    | some tj => runTensor (attendShifted fl) id tj
+  pure (objJ [("elems", Json.arr outs.toArray), ("tensor", tens)])
 
 def getFlag (j : Json) (k : String) : Except String Bool := getBool j k
 
@@ -130,9 +183,12 @@ def c20Multi : Handler := fun c => do
     let spec := mhaSpecH Float.tanh eh m el.q el.ks el.vs el.mask
     pure (objJ [("out", listJ floatJ out), ("spec", listJ floatJ spec),
       ("shifts", listJ floatJ cs)]))
+  let tens ← match fieldOpt c "tensor" with
+    | none => pure Json.null
+    | some tj => runTensor (fun _ => mhaShifted m) (fun _ => m.WC.length) tj
   pure (objJ [("has_bias", objJ [("wq", boolJ m.bQ.isSome), ("wk", boolJ m.bK.isSome),
       ("wv", boolJ m.bV.isSome), ("wc", boolJ m.bC.isSome)]),
-    ("elems", Json.arr outs.toArray)])
+    ("elems", Json.arr outs.toArray), ("tensor", tens)])
 
 /-- case: {query_size, key_size, value_size: null | n, dim, q, k, v, mask: null | [..]} -/
 def c20Shape : Handler := fun c => do
